@@ -16,7 +16,6 @@ import (
 	"testing"
 
 	"go.opentelemetry.io/collector/component"
-	"go.opentelemetry.io/collector/component/componenttest"
 	"go.opentelemetry.io/collector/consumer"
 	"go.opentelemetry.io/collector/pdata/plog"
 	"go.opentelemetry.io/collector/pdata/pmetric"
@@ -121,8 +120,17 @@ func TestVerifC19Proc(t *testing.T) {
 			ops[i] = o
 			out.Stat(fmt.Sprintf("op_res%d_nexterr%v", o.res, o.nextErr), 1)
 		}
-		tel := componenttest.NewTelemetry()
-		set := processor.Settings{ID: component.MustNewIDWithName("verif", fmt.Sprint(c)), TelemetrySettings: tel.NewTelemetrySettings(), BuildInfo: component.NewDefaultBuildInfo()}
+		mode := vC19TelMode(rng)
+		out.Stat(fmt.Sprintf("tracer_mode%d", mode), 1)
+		tel, tset, _ := vC19NewTel(mode)
+		cancelled := rng.Intn(4) == 0 // the caller's context is already cancelled
+		callCtx := context.Background()
+		if cancelled {
+			c2, cancel := context.WithCancel(callCtx)
+			cancel()
+			callCtx = c2
+		}
+		set := processor.Settings{ID: component.MustNewIDWithName("verif", fmt.Sprint(c)), TelemetrySettings: tset, BuildInfo: component.NewDefaultBuildInfo()}
 		cur := 0
 		handed := -1 // items the next consumer received in the current call (-1: not called)
 		nextRes := func(n int) error {
@@ -148,7 +156,7 @@ func TestVerifC19Proc(t *testing.T) {
 			if err != nil {
 				t.Fatal(err)
 			}
-			call = func(n int) error { return p.ConsumeTraces(context.Background(), vC19T(n)) }
+			call = func(n int) error { return p.ConsumeTraces(callCtx, vC19T(n)) }
 		case 1:
 			next, _ := consumer.NewMetrics(func(_ context.Context, md pmetric.Metrics) error { return nextRes(md.DataPointCount()) })
 			p, err := NewMetrics(context.Background(), set, nil, next, func(_ context.Context, md pmetric.Metrics) (pmetric.Metrics, error) {
@@ -163,7 +171,7 @@ func TestVerifC19Proc(t *testing.T) {
 			if err != nil {
 				t.Fatal(err)
 			}
-			call = func(n int) error { return p.ConsumeMetrics(context.Background(), vC19M(n)) }
+			call = func(n int) error { return p.ConsumeMetrics(callCtx, vC19M(n)) }
 		default:
 			next, _ := consumer.NewLogs(func(_ context.Context, ld plog.Logs) error { return nextRes(ld.LogRecordCount()) })
 			p, err := NewLogs(context.Background(), set, nil, next, func(_ context.Context, ld plog.Logs) (plog.Logs, error) {
@@ -178,7 +186,7 @@ func TestVerifC19Proc(t *testing.T) {
 			if err != nil {
 				t.Fatal(err)
 			}
-			call = func(n int) error { return p.ConsumeLogs(context.Background(), vC19L(n)) }
+			call = func(n int) error { return p.ConsumeLogs(callCtx, vC19L(n)) }
 		}
 		var prev [vC19NCounters]int64
 		violated := ""
@@ -201,8 +209,8 @@ func TestVerifC19Proc(t *testing.T) {
 			}
 			calledOK := (ops[i].res == 0) == (handed >= 0) && (handed < 0 || handed == ops[i].nout)
 			if violated == "" && (got.vec != want || len(got.unknown) > 0 || !errors.Is(err, wantErr) || (wantErr == nil && err != nil) || !calledOK) {
-				violated = fmt.Sprintf("call %d signal=%d in=%d res=%d out=%d handed=%d err=%v: counters %v, expected %v (unknown %v)",
-					i, sig, ops[i].nin, ops[i].res, ops[i].nout, handed, err, got.vec, want, got.unknown)
+				violated = fmt.Sprintf("tracer_mode=%d cancelled_ctx=%v call %d signal=%d in=%d res=%d out=%d handed=%d err=%v: counters %v, expected %v (unknown %v)",
+					mode, cancelled, i, sig, ops[i].nin, ops[i].res, ops[i].nout, handed, err, got.vec, want, got.unknown)
 			}
 			prev = got.vec
 		}
